@@ -476,3 +476,62 @@ def mutate(rng, text):
         else:
             text = text[:i] + rng.choice(['\n', '\r', '\r\n', '"', '\\', ' ', '#']) + text[i:]
     return text
+
+# ----------------------------------------------------------------------------- files that share escaped lines (history independence)
+
+SEQ_CHARSETS = ['ISO-8859-1', 'ISO-8859-2', 'ISO-8859-15', 'ISO-8859-5', 'ISO-8859-7', 'KOI8-R', 'KOI8-U', 'CP1251', 'CP1252', 'CP437',
+                'UTF-8', 'EUC-JP', 'SHIFT_JIS', 'GBK', 'BIG5', 'EUC-KR', 'KOI8-RU', 'GEORGIAN-PS']
+
+def blank_entry():
+    e = dict.fromkeys(FIELDS)
+    e.update(obsolete=False, msgstr_plural={}, flags=[], occurrences=[], comment='', tcomment='')
+    return e
+
+def spell_bytes(rng, bs):
+    """one fixed escaped spelling of a byte string (three-digit octal / two-digit hex: no hazard)"""
+    style = rng.choice(['hex', 'HEX', 'oct', 'mix'])
+    out = ''
+    for b in bs:
+        st = style if style != 'mix' else rng.choice(['hex', 'oct'])
+        out += ('\\x%02x' % b) if st == 'hex' else ('\\x%02X' % b) if st == 'HEX' else ('\\%03o' % b)
+    return out
+
+def gen_shared_group(rng, charsets=None):
+    """k files in k different charsets containing textually identical escaped message lines whose bytes every one of the charsets
+    decodes (mostly to different strings).  → [(charset, catalog, text)] or None"""
+    pool = [c for c in (charsets or SEQ_CHARSETS) if repertoire(c)]
+    k = rng.choice([2, 2, 2, 3])
+    if len(pool) < k:
+        return None
+    css = rng.sample(pool, k)
+    shared = []
+    for _ in range(200):
+        if len(shared) >= rng.choice([1, 2, 3]) * 2:
+            break
+        src = rng.choice(css)
+        t = ''.join(rng.choice(repertoire(src)) for _ in range(rng.choice([1, 1, 2, 3])))
+        bs = t.encode(src)
+        try:
+            decs = [bs.decode(c) for c in css]
+        except UnicodeError:
+            continue
+        if any(('\n' in d or '"' in d or '\\' in d) for d in decs):
+            continue
+        shared.append((bs, spell_bytes(rng, bs), decs))
+    if len(shared) < 2:
+        return None
+    shared = shared[:len(shared) // 2 * 2]
+    files = []
+    for i, cs in enumerate(css):
+        base = gen_catalog(rng, cs, with_header=True)
+        base['entries'] = base['entries'][:rng.choice([1, 1, 2])]
+        text = render(rng, base, cs, final_newline=True, trailing=False)
+        cat = {'header_comment': base['header_comment'], 'entries': list(base['entries'])}
+        for j in range(0, len(shared), 2):
+            (_b1, sp1, d1), (_b2, sp2, d2) = shared[j], shared[j + 1]
+            e = blank_entry()
+            e['msgid'], e['msgstr'] = d1[i], d2[i]
+            cat['entries'].append(e)
+            text += f'\nmsgid "{sp1}"\nmsgstr "{sp2}"\n'
+        files.append((cs, cat, text))
+    return files
